@@ -346,3 +346,19 @@ package server
 //@ func (*roaManager).HandleROAEvent
 //@   claims at-call
 //@   at-call time.AfterFunc( requires client.timer == nil || called(Stop)
+
+// =============================================================================================
+// C10 - "what is read back equals what was configured": the action type of an ext-community / large-community action
+// =============================================================================================
+//@ props C10
+// (closures 5 and 6 of toStatementApi build the ExtCommunity / LargeCommunity actions of the statement read back)
+//@ func toStatementApi$5
+//@   claims at-return
+//@   at-return requires ret0 != nil && oc.BgpSetCommunityOptionType(s.Actions.BgpActions.SetExtCommunity.Options) == oc.BGP_SET_COMMUNITY_OPTION_TYPE_ADD ==> ret0.Type == api.CommunityAction_TYPE_ADD
+//@   at-return requires ret0 != nil && oc.BgpSetCommunityOptionType(s.Actions.BgpActions.SetExtCommunity.Options) == oc.BGP_SET_COMMUNITY_OPTION_TYPE_REMOVE ==> ret0.Type == api.CommunityAction_TYPE_REMOVE
+//@   at-return requires ret0 != nil && oc.BgpSetCommunityOptionType(s.Actions.BgpActions.SetExtCommunity.Options) == oc.BGP_SET_COMMUNITY_OPTION_TYPE_REPLACE ==> ret0.Type == api.CommunityAction_TYPE_REPLACE
+//@ func toStatementApi$6
+//@   claims at-return
+//@   at-return requires ret0 != nil && s.Actions.BgpActions.SetLargeCommunity.Options == oc.BGP_SET_COMMUNITY_OPTION_TYPE_ADD ==> ret0.Type == api.CommunityAction_TYPE_ADD
+//@   at-return requires ret0 != nil && s.Actions.BgpActions.SetLargeCommunity.Options == oc.BGP_SET_COMMUNITY_OPTION_TYPE_REMOVE ==> ret0.Type == api.CommunityAction_TYPE_REMOVE
+//@   at-return requires ret0 != nil && s.Actions.BgpActions.SetLargeCommunity.Options == oc.BGP_SET_COMMUNITY_OPTION_TYPE_REPLACE ==> ret0.Type == api.CommunityAction_TYPE_REPLACE
